@@ -173,6 +173,33 @@ func decode(c *mon.Ctx, e *ref.EBP) {
 	if !bytes.Equal(in, snap) {
 		c.Fail("decode:input-modified", "decoding or re-encoding modified the input bytes", wit{mon.Hex(snap), shape(e), ""})
 	}
+	// the same receive buffer is filled with the next EBP of the stream - same flavour, flags and length,
+	// other values - and decoded again
+	{
+		e3 := *e
+		e3.Sap ^= 0x20 | byte(len(snap))
+		e3.Groups = append([]byte{}, e.Groups...)
+		for k := range e3.Groups {
+			e3.Groups[k] ^= byte(k+1) & 0x7f
+		}
+		e3.Sec, e3.Frac, e3.Partitions = e.Sec+2, e.Frac^0x40008001, e.Partitions^0x05
+		if e3.Flags&0x01 != 0 {
+			e3.Ext ^= 0x40 // (not the partition flag: the layout stays)
+		}
+		if nb := e3.Bytes(); len(nb) == len(snap) && !bytes.Equal(nb, snap) {
+			copy(in, nb)
+			c.Count("decode_from_the_same_buffer_refilled_with_the_next_ebp")
+			x3, err := ebp.ReadEncoderBoundaryPoint(in)
+			if err != nil || x3 == nil {
+				c.Fail("decode-from-refilled-buffer:error", fmt.Sprintf("the buffer was refilled with the next EBP of the same shape and that one was rejected: %v (%s)", err, shape(&e3)), wit{mon.Hex(nb), shape(&e3), fmt.Sprint(err)})
+			} else if getters(c, "decode-from-refilled-buffer", x3, &e3, nb) {
+				if o3 := x3.Data(); !bytes.Equal(o3, nb) {
+					c.Fail("decode-from-refilled-buffer:reencode", fmt.Sprintf("the buffer was refilled with the next EBP of the same shape; re-encoding what was decoded from it gave %x (%s)", o3, shape(&e3)), wit{mon.Hex(nb), shape(&e3), "re-encoded: " + mon.Hex(o3)})
+				}
+			}
+			copy(in, snap)
+		}
+	}
 	// a flavour-specific setter on the decoded object is reflected by the next encoding
 	{
 		y, _ := ebp.ReadEncoderBoundaryPoint(append([]byte{}, snap...))
@@ -401,6 +428,9 @@ var (
 	keptStamps    int
 )
 
+// zones: locations a time.Time can carry (fixed offsets east and west, half hours, the extremes, the process's own)
+var zones = []*time.Location{time.FixedZone("CET", 3600), time.FixedZone("EST", -5*3600), time.FixedZone("IST", 19800), time.FixedZone("LINT", 14*3600), time.FixedZone("AoE", -12*3600), time.FixedZone("odd", 1), time.FixedZone("odd-west", -86399), time.Local}
+
 func timeCase(c *mon.Ctx, t time.Time, class string) {
 	cm := ebp.CreateComcastEBP()
 	cm.SetEBPTime(t)
@@ -438,6 +468,8 @@ func run(c *mon.Ctx) {
 	per := c.N(12, 20000)
 	c.Exhaustive("all 256 flag bytes x both flavours", 512)
 	c.Floor("decoded_then_flavour_setter", 500)
+	c.Floor("decode_from_the_same_buffer_refilled_with_the_next_ebp", 2000)
+	c.Floor("time.instant_given_in_another_location", 3000)
 	c.Floor("concurrent.calls", 5000)
 	c.Stream("concurrent-codecs", c.N(8, 200), func(i int, r *gen.Rand) {
 		c.Concurrent("ebp.ReadEncoderBoundaryPoint + Data", 8, 2000, r, func(q *gen.Rand) string {
@@ -510,6 +542,8 @@ func run(c *mon.Ctx) {
 		ns := subs[i]
 		for _, sec := range []int64{lo.Unix(), lo.Unix() + 1, ref.NTPEra1.Unix() - 1, ref.NTPEra1.Unix(), ref.NTPEra1.Unix() + 1, hi.Unix() - 1, 0, 1, -1, 1700000000, 2147483647, 2147483648} {
 			timeCase(c, time.Unix(sec, int64(ns)).UTC(), fmt.Sprintf("boundary/sec=%d/ns=%d", sec, ns))
+			// the same instant as a time.Time of another location (an instant is an instant)
+			timeCase(c, time.Unix(sec, int64(ns)).In(zones[(i+int(sec&7))%len(zones)]), fmt.Sprintf("boundary-in-a-zone/sec=%d/ns=%d", sec, ns))
 		}
 	})
 	c.Stream("time-random", c.N(2000, 40000000), func(i int, r *gen.Rand) {
@@ -532,7 +566,13 @@ func run(c *mon.Ctx) {
 			if sec >= ref.NTPEra1.Unix() {
 				era = 1
 			}
-			timeCase(c, time.Unix(sec, int64(ns)).UTC(), fmt.Sprintf("%s/era=%d", cls, era))
+			t := time.Unix(sec, int64(ns)).UTC()
+			if r.Chance(3) {
+				t = t.In(zones[r.Intn(len(zones))])
+				cls += "/zone"
+				c.Count("time.instant_given_in_another_location")
+			}
+			timeCase(c, t, fmt.Sprintf("%s/era=%d", cls, era))
 		}
 	})
 }
